@@ -29,6 +29,7 @@ ThrMonInit(c) ==     \* c = [Cap, MinLen, K]
    aq |-> c.Cap, stale |-> 0,         \* library accounting: tokens, ticks since its latestTick
    baseOpen |-> FALSE, upOpen |-> FALSE, baseCnt |-> 0,
    phi |-> 0, age |-> 0, everFw |-> FALSE,
+   disk |-> TRUE,                     \* processor composition: the storage layer's free-disk-space check passes on the current frame
    v |-> {}]
 
 (* time passes *)
@@ -68,6 +69,9 @@ StartStep(m, E) ==       \* m already elapsed + adjusted
             \cup TIf(fw /\ ~b[1].ok /\ ~E.err, "C06:start-error-swallowed")
             \cup TIf((~fw \/ ok) /\ E.err, "C06:spurious-error")
             \cup TIf(E.nev # (IF fw THEN 0 ELSE 1), "C06:event-count")
+            \* C04 through the throttle: the processor asks the throttle whether it can record; a start request on a frame
+            \* on which the storage layer's disk check fails means the refusal was swallowed on the way
+            \cup TIf(~m.disk, "C04:start-below-min-disk-space[through-throttle]")
   IN [m EXCEPT !.v = @ \cup v, !.baseOpen = @ \/ ok, !.baseCnt = IF ok THEN 0 ELSE @,
                !.upOpen = ~E.err]
 
